@@ -25,6 +25,7 @@ def runCase (c : Case) : IO Unit := do
   | "codes" | "bits" | "repair" | "rpdac" => runCheckStreams c emit
   | "chunks" => runChunkStream c emit
   | "sweep" => runSweep c emit
+  | "dacimg" => runDacImg c emit
   | _ => emit 1 s!"ERR unknown-stream {c.stream}"
 
 partial def loop (h : IO.FS.Stream) (cur : Option Case) : IO Unit := do
